@@ -1,16 +1,23 @@
 import os
 from runner import Property, Engine
 import dnsgen
+import legacygen
 
 os.environ.setdefault("WIRE_ORACLES", "C02")
+os.environ.setdefault("LEGACY_ORACLES", "C02")
 
 PROP = Property(
     pid="C02",
     properties_v=["Properties/Properties_C02.v", "Properties/Properties_C02_buf.v"],
-    coq_targets=["Extract/Extract_Wire.vo"],
+    coq_targets=["Extract/Extract_Wire.vo", "Extract/Extract_Legacy.vo"],
     engines=[Engine(name="wire", c_srcs=["harness/wire_drv.c"],
                     ml_srcs=["ocaml/gen/WireModel.ml", "ocaml/wire_drv.ml"],
-                    gen=dnsgen.gen, n_quick=12000, n_thorough=150000, sep=None, timeout=600)],
+                    gen=dnsgen.gen, n_quick=12000, n_thorough=150000, sep=None, timeout=600),
+             # the legacy reply decoders (ares_parse_*_reply, addrttl arrays with guard elements,
+             # allocation ledger): C18's engine, judged here on the memory-safety clauses only
+             Engine(name="legacy", c_srcs=["harness/legacy_drv.c"],
+                    ml_srcs=["ocaml/gen/LegacyModel.ml", "ocaml/legacy_drv.ml"],
+                    gen=legacygen.gen, n_quick=4000, n_thorough=40000)],
     trusted_base=["Coq 8.16.1 kernel + coqc (vm_compute; no native_compute)",
                   "extraction (ExtrOcamlBasic only, no Extract Constant) + OCaml 4.13.1",
                   "gen/c2gallina.py with helper inlining and byte regions (ares_buf_fetch_be16/be32/bytes/bytes_dup/peek_byte/tag_fetch_bytes: every byte access carries an OutOfBounds guard; Properties_C02_buf.v)",
@@ -22,7 +29,7 @@ PROP = Property(
     assumptions=["the parsers are hand-modelled check by check (coq/Wire/Cursor.v, Name.v, Parse.v); the tie to the C text is generation for the cursor arithmetic and the correspondence run elsewhere",
                  "allocation failure is not modelled (C14)",
                  "absence of UB in the C text itself (e.g. a wrong memcpy length) and of leaks is observed by sanitizers / the allocation ledger on the generated inputs, not proved"],
-    rule="structure-aware DNS messages + mutations + repository fuzz seeds, all parse-flag values; legacy expand_name/expand_string with arbitrary int lengths; non-trivial = input of at least 12 octets (got past the header length check) or a legacy call; distinct by case text",
+    rule="legacy engine: every ares_parse_*_reply on generated/mutated messages with every addrttl capacity (guard elements), leak ledger || structure-aware DNS messages + mutations + repository fuzz seeds, all parse-flag values; legacy expand_name/expand_string with arbitrary int lengths; non-trivial = input of at least 12 octets (got past the header length check) or a legacy call; distinct by case text",
     generated_fns=["ares_buf_fetch_be16", "ares_buf_fetch_be32", "ares_buf_fetch_bytes", "ares_buf_fetch_bytes_dup", "ares_buf_peek_byte", "ares_buf_tag_fetch_bytes", "ares_buf_len", "ares_buf_consume", "ares_buf_set_position", "ares_buf_get_position",
                    "ares_dns_rr_remaining_len", "ares_dns_flags_arevalid"],
 )
